@@ -42,9 +42,22 @@ pub struct Instant {
     pub secs: i64,
     pub nanos: u32,
 }
+/// `secs >= YEAR_END` stands for "that many seconds before the last second of year 9999 *in the writer's time
+/// zone*" (west of Greenwich that instant lies in year 10000 of UTC; east of it year 10000 has no RFC 3339 form)
+pub const YEAR_END: i64 = 1 << 60;
+static WRITER_YEAR_END: std::sync::OnceLock<i64> = std::sync::OnceLock::new();
+/// Resolved once per process, under the time zone the process was started with (the read-back zone is switched
+/// only inside a run and put back afterwards).
+fn writer_year_end() -> i64 {
+    *WRITER_YEAR_END.get_or_init(|| {
+        let naive = chrono::NaiveDate::from_ymd_opt(9999, 12, 31).unwrap().and_hms_opt(23, 59, 59).unwrap();
+        Local.from_local_datetime(&naive).single().expect("last second of year 9999").timestamp()
+    })
+}
 impl Instant {
     fn local(self) -> DateTime<Local> {
-        Local.timestamp_opt(self.secs, self.nanos).single().expect("instant")
+        let secs = if self.secs >= YEAR_END { writer_year_end() - (self.secs - YEAR_END) } else { self.secs };
+        Local.timestamp_opt(secs, self.nanos).single().expect("instant")
     }
 }
 #[derive(Clone, Copy, Debug, Serialize, Deserialize, PartialEq, Eq)]
@@ -155,7 +168,13 @@ fn gen_msg_for(kind: Kind, seed: u64) -> Msg {
 fn gen_instant(rng: &mut Rng) -> Instant {
     let secs = match rng.below(7) {
         // beyond the range of a nanosecond counter in an i64 (2262-04-11), year 3000, the last days of year 9999
-        6 => *rng.pick(&[9_223_372_037i64, 32_503_680_000, 253_402_000_000]) + rng.range(0, 100_000),
+        6 => {
+            if rng.chance(1, 3) {
+                YEAR_END + rng.range(0, 20_000)
+            } else {
+                *rng.pick(&[9_223_372_037i64, 32_503_680_000, 253_402_000_000]) + rng.range(0, 100_000)
+            }
+        }
         // before 1970, but not before 1940: the three supported zones then use offsets that are whole minutes
         // (RFC 3339 cannot express the seconds of e.g. -03:30:52, Newfoundland local mean time until 1935)
         0 => -rng.range(1, 900_000_000),
@@ -683,6 +702,11 @@ impl Prop for C20 {
         // ocipkg parses digests and image names with regexes, whose process-global cache pool creates hash
         // maps under thread contention: runs are executed one at a time in worker processes
         true
+    }
+
+    fn prepare(&self) {
+        // resolved on the main thread, under the time zone the process was started with
+        let _ = writer_year_end();
     }
 
     fn exec(&self, case: &Case, x: &mut Exec) {
